@@ -104,7 +104,7 @@ GRP_MAPS = {'int': [1, 2, 3], 'str': ['g1', 'g2', 'g3']}
 DTYPES = {'float64': 1, 'float32': 1, 'int64': 1, 'int32': 1}
 NARROW = {'int8': 40, 'uint8': 60, 'int16': 5000, 'int32': 20000}
 BASE = dict(cont='list', lab='int', dtype='float64', order='C', extra=True, scale=1, flab='int',
-            noise='array', api='calc_rdm')
+            noise='array', api='calc_rdm', wrap=False)
 
 
 def flavour(rng, *, narrow=False, nonneg=True):
@@ -117,7 +117,8 @@ def flavour(rng, *, narrow=False, nonneg=True):
              scale=1,
              flab=list(FOLD_MAPS)[rng.integers(3)],
              noise=['array', 'list'][rng.integers(2)],
-             api=['calc_rdm', 'direct'][rng.integers(2)])
+             api=['calc_rdm', 'direct'][rng.integers(2)],
+             wrap=bool(rng.integers(4) == 0))      # a single dataset passed as a one-element list
     if narrow:
         names = [n for n in NARROW if nonneg or n != 'uint8']
         f['dtype'] = names[rng.integers(len(names))]
@@ -191,7 +192,7 @@ def call_impl(inp, fl):
     desc = COND if inp['useDesc'] else None
     if mode == 'single':
         ds = make_dataset(inp['lab'], inp['x'], inp['ext'], fl)
-        return calc_rdm(ds, method=method, descriptor=desc, noise=_noise(inp['prec']),
+        return calc_rdm([ds] if fl.get('wrap') else ds, method=method, descriptor=desc, noise=_noise(inp['prec']),
                         prior_lambda=lam, prior_weight=w, remove_mean=inp['rm'])
     if mode == 'list':
         d1 = make_dataset(inp['lab'], inp['x'], None, fl, subj=3)
@@ -491,6 +492,7 @@ def check_vector(vec, fl, pid='C01', *, diagnose=True):
     (key, what, detail) - empty if the implementation agrees with the specification"""
     inp, out = vec['in'], vec['out']
     mode, method = inp['mode'], inp['method']
+    wrapped = mode == 'single' and bool(fl.get('wrap'))
     cl = 'a' if pid == 'C01' else ('c' if method == 'poisson_cv' else ('b' if inp.get('fprec') else 'a'))
     exp, undef = expected_values(inp, out, fl['scale'])
     try:
@@ -545,8 +547,11 @@ def check_vector(vec, fl, pid='C01', *, diagnose=True):
         subj = [_norm(v) for v in got['rd'].get('subj', [])]
         want = [3] * nr if mode != 'list' else sorted(subj)
         if mode != 'list' and subj != want:
-            problems.append((f'{pid}/c/rdmdesc/{mode}', 'dataset descriptor subj not attached to every RDM',
-                             {'got': subj}))
+            kmode = 'list1' if wrapped else mode + ('/n_rdm=1' if nr == 1 and mode == 'movie' else '')
+            problems.append((f'{pid}/c/rdmdesc/{kmode}', 'dataset descriptor subj not attached to every RDM'
+                             + (' (a single RDM passes through concat / from_partials, which merge rdm_descriptors '
+                                'of the 2nd.. objects only)' if nr == 1 else ''),
+                             {'got': subj, 'rdm_descriptors': sorted(got['rd'])}))
     # ---- values ----------------------------------------------------------------------------
     pairs = [(p, q) for p in range(n) for q in range(p + 1, n)]
     tol = _tol(fl, float(np.nanmax(np.abs(exp))) if np.isfinite(exp).any() else 1.0, _magnitude(inp, fl['scale']))
@@ -571,7 +576,7 @@ def check_vector(vec, fl, pid='C01', *, diagnose=True):
         problems.append((key, what, {'rdm': r, 'pair': [out['lab'][pairs[k][0]], out['lab'][pairs[k][1]]],
                                      'got': gotmat.tolist(), 'expected': exp.tolist(), 'tol': tol}))
     # ---- pattern descriptors ---------------------------------------------------------------
-    if fl['extra'] and mode != 'list':
+    if fl['extra'] and mode != 'list' and not (wrapped and inp['useDesc']):   # from_partials keeps only the aligned descriptor
         for name, col, conv in (('grp', out['grp'], lambda v: _norm(GRP_MAPS['str' if fl['lab'].startswith('str') else 'int'][v - 1])),
                                 ('ext', out['ext'], _norm)):
             if name == 'ext' and mode == 'cv':
@@ -614,8 +619,9 @@ def _diagnose(vec, fl, pid, key, what, gotmat, exp, undef, tol):
         if inp['rm'] and method in ('euclidean', 'mahalanobis', 'crossnobis'):
             alt = kernel_expected(inp, out, rm=False, scale=fl['scale'])
             if _close(gotmat, alt, undef, tol):
-                return (f'{pid}/e/remove_mean-ignored/{mode}/{method}',
-                        f'remove_mean=True is silently ignored for {mode} input: the result equals remove_mean=False')
+                kmode = 'list' if fl.get('wrap') and mode == 'single' else mode
+                return (f'{pid}/e/remove_mean-ignored/{kmode}/{method}',
+                        f'remove_mean=True is silently ignored for {kmode} input: the result equals remove_mean=False')
         if method == 'poisson_cv':
             rates = out['rdms'][0]['rates']
             n = len(out['lab'])
@@ -719,6 +725,16 @@ def _magnitude_ok(inp):
 def gen_input(rng, mode):
     """a random abstract input on the integer grid, larger than the exhaustively enumerated domain;
     None if the draw fell outside the generator constraints (counted by the caller)"""
+    if mode == 'cvmany':
+        # default folds with many repetitions (>= 11 folds: two-digit fold numbers), crossnobis
+        nc, reps, P = int(rng.integers(2, 4)), int(rng.integers(11, 13)), int(rng.integers(1, 3))
+        conds = sorted(rng.choice(np.arange(1, 6), size=nc, replace=False).tolist())
+        lab = [int(c) for c in conds for _ in range(reps)]
+        rng.shuffle(lab)
+        inp = dict(mode='cv', method='crossnobis', rm=bool(rng.integers(2)), prec=[], prior=PRIORS[0], useDesc=True,
+                   lab=lab, x=rng.integers(-2, 3, size=(len(lab), P)).tolist(), fold=[], foldsrc='default', fprec=[])
+        inp['fold'] = _fold_of(inp)
+        return inp
     if mode == 'cv':
         nc = int(rng.integers(2, 5))
         nf = int(rng.integers(2, 5))
@@ -801,6 +817,9 @@ def gen_input(rng, mode):
                 bins = [bins[0], bins[1][:1], bins[1][1:]]
         inp = dict(base, lab=lab, x3=rng.integers(lo, hi, size=(nt, n, P)).tolist(), ext=rng.integers(1, 3, size=n).tolist(),
                    bins=bins, tv=[int(v) for v in tv])
+        bt = [Fraction(sum(tv[t - 1] for t in b), len(b)) for b in bins]
+        if len(set(bt)) != len(bt):
+            return None            # generator constraint: the (binned) time points are distinct
     if _degenerate(inp) or not _magnitude_ok(inp):
         return None
     return inp
@@ -861,6 +880,10 @@ def record_trace(seed, mode):
         return ('skip', 'generator constraints')
     fl = flavour(rng)
     fl['dtype'] = ['float64', 'int64'][rng.integers(2)]
+    fl['wrap'] = False
+    if mode == 'cvmany':
+        fl['lab'] = ['str', 'int', 'strmix', 'intneg'][seed % 4]
+        fl['class'] = 'cvmany'
     try:
         got = project(call_impl(inp, fl))
     except Exception as e:  # noqa: BLE001
@@ -923,7 +946,7 @@ def float_case(vec, rng, pid='C01'):
     if inp['mode'] == 'list' and vec['in']['prec'] == vec['in']['prec2']:
         inp['prec2'] = inp['prec']
     fl = flavour(rng)
-    fl.update(dtype='float64', scale=1)
+    fl.update(dtype='float64', scale=1, wrap=False)
     fprec = None
     if inp['mode'] == 'cv' and inp['fprec']:
         # general SPD precision per fold (the exact tier has diagonal ones)
